@@ -12,7 +12,12 @@
    in other goroutines.  A schedule is a list of [op]s issued by the harness:
    StartW = the callback starts on the next change and runs up to the mark (or to its
    end when nothing is to be fired), StepW = it goes on to its end, StartS r = reader r
-   takes a snapshot, E = unlock.  No proofs here. *)
+   takes a snapshot, E = unlock.  No proofs here.
+
+   Beyond one informer: C01_Monitor (namespace.labelSelector: ONE namespace appearing ONCE
+   against the unlock, at lock granularity), C01_Hist (namespace.labelSelector: the events of
+   the whole monitor over HISTORIES of namespace create / relabel / delete and object
+   create / modify / delete after the unlock), Op_Model + C01_OpSpec (the operator's task flow). *)
 From Verif Require Import Common.
 Open Scope N_scope.
 
